@@ -167,7 +167,7 @@ impl<'a, R: BufRead> GenLog2DltMsgIterator<'a, R> {
         );
         // return a DltMessage with the LOG INFO APID incl. the BusMapping name
         let index = self.index;
-        self.index += 1;
+        self.index = self.index.wrapping_add(1); // the last msg can have index MAX
         Some(DltMessage {
             index,
             reception_time_us,
@@ -262,7 +262,7 @@ impl<R: BufRead> Iterator for GenLog2DltMsgIterator<'_, R> {
                         };
 
                         let index = self.index;
-                        self.index += 1;
+                        self.index = self.index.wrapping_add(1); // the last msg can have index MAX
 
                         let msg = DltMessage {
                             index,
